@@ -132,14 +132,11 @@ func pipeChannelQuit(l *pipeLog, rng *rand.Rand) error {
 		return err
 	}
 	defer releaseTty(tty)
-	for idle := 0; idle < 3; { // the initial resize event
-		if s.HasPendingEvent() {
-			s.PollEvent()
-			idle = 0
-		} else {
-			idle++
-			time.Sleep(2 * time.Millisecond)
+	for idle := 0; idle < 3; idle++ { // the initial resize event
+		if !drainPending(s, "ChanQuit", l.emit, func(tcell.Event) { idle = -1 }) {
+			break
 		}
+		time.Sleep(2 * time.Millisecond)
 	}
 	ch := make(chan tcell.Event)
 	quit := make(chan struct{})
@@ -492,9 +489,7 @@ func pipeShutdown(l *pipeLog, st startState, kind string, rep int) error {
 	defer releaseTty(tty)
 	base := runtime.NumGoroutine()
 	// drain the initial resize event so that the queue level is ours to set
-	for s.HasPendingEvent() {
-		s.PollEvent()
-	}
+	drainPending(s, "Shutdown", l.emit, nil)
 	for i := 0; i < st.eq; i++ {
 		s.PostEvent(tcell.NewEventInterrupt(i))
 	}
